@@ -216,7 +216,13 @@ class Report:
             "rule": "one evaluation = one symbolic path / SAT query over all inputs in the bound; non-trivial = an obligation sent to the solver or decided by interval folding",
         }
         cov.update(self.extra)
-        ev = {"property_id": self.prop, "tier": self.tier, "seed": self.seed, "level": self.level, "coverage": cov,
+        level = self.level
+        if level == "proof" and (discharged != obligations or self.known_hits):
+            # obligations that fail (recorded findings, violations, inconclusive jobs): this run is not a proof of the property; it is
+            # a record of which obligations were discharged and which were not
+            level = "other"
+            cov["level_note"] = "%d of %d obligations discharged; the others are accounted for under known_findings_hit / violations / inconclusive" % (discharged, obligations)
+        ev = {"property_id": self.prop, "tier": self.tier, "seed": self.seed, "level": level, "coverage": cov,
               "assumptions": self.assumptions, "wall_s": round(time.time() - self.t0, 1), "violations": len(self.violations)}
         os.makedirs(os.path.join(VERIF, "evidence"), exist_ok=True)
         with open(os.path.join(VERIF, "evidence", "%s.json" % self.prop), "w") as f:
